@@ -943,6 +943,10 @@ SEs(es, senv, ctx) == \E i \in 1..Len(es): SE(es[i], senv, ctx)
 SSeq(sts, senv, ctx) == IF Len(sts) = 0 THEN SOk(senv)
                         ELSE LET r == SSt(Head(sts), senv, ctx) IN IF r.bad THEN r ELSE SSeq(Tail(sts), r.senv, ctx)
 SBlock(sts, senv, ctx) == SSeq(sts, Append(senv, <<>>), ctx).bad
+\* a function body is compiled up to and including its first return STATEMENT (a direct child of the body): what
+\* follows is never compiled, so it cannot be a compile error either
+UpToReturn(sts) == LET idx == {i \in 1..Len(sts): sts[i].k = "return"} IN
+                   IF idx = {} THEN sts ELSE SubSeq(sts, 1, CHOOSE i \in idx: \A j \in idx: i <= j)
 SFunc(e, senv) ==
   LET ps == e.params
       names == [i \in 1..Len(ps) |-> ps[i].n]
@@ -950,7 +954,7 @@ SFunc(e, senv) ==
                      \/ \E i, j \in 1..Len(ps): i < j /\ ps[i].hasdef /\ ~ps[j].hasdef
       t1 == SDeclAll(Append(senv, <<>>), names, FALSE)
       t2 == IF t1.bad \/ e.name = "" THEN t1 ELSE SDecl(t1.senv, e.name, TRUE)
-  IN badDefaults \/ t2.bad \/ SBlock(e.body, t2.senv, [loop |-> FALSE, fn |-> TRUE])
+  IN badDefaults \/ t2.bad \/ SBlock(UpToReturn(e.body), t2.senv, [loop |-> FALSE, fn |-> TRUE])
 SE(e, senv, ctx) ==
   CASE e.k \in {"int", "float", "bool", "nil", "str", "nilnode"} -> FALSE
     [] e.k = "tmpl" -> \E i \in 1..Len(e.parts): e.parts[i].k # "lit" /\ SE(e.parts[i].e, senv, ctx)
